@@ -68,11 +68,18 @@ class C41(vlib.Spec):
         if case.get("k") == "dump":
             if "flow" not in res or "ir" not in res:
                 return 1
+            self.dumps[case["flow"]] = res
+            if res.get("flow_panic"):
+                # the typed API itself panicked while the (well-typed) flow was being built
+                self.info[case["flow"]] = {"flow_panic": res["flow_panic"]}
+                return 2
             try:
                 term, info = hydrob.c41_term(res)
             except hydrob.Unsupported as e:
                 self.info[case["flow"]] = {"unsupported": str(e)}
-                return 1
+                failed = res.get("emit_panic") or any(l.get("build") != "ok" or l.get("partition") != "ok"
+                                                      for l in res.get("locations", []))
+                return 2 if failed else 1
             self.info[case["flow"]] = info
             self.dumps[case["flow"]] = res
             return term
@@ -97,6 +104,12 @@ class C41(vlib.Spec):
             return None
         if res.get("emit_panic") and "not yet implemented" in str(res["emit_panic"]):
             return "emit/todo-top-level-bounded-keyed-aggregate"
+        fp = str(res.get("flow_panic") or "")
+        if "left == right" in fp and "Bounded" in fp and "Unbounded" in fp and "filter_not_in" in case.get("flow", ""):
+            return "filter_not_in/metadata-bounded-on-unbounded-input"
+        if any("`partition` must have at least 2 output" in " ".join(l.get("diagnostics") or [])
+               for l in res.get("locations", [])):
+            return "partition/unused-side"
         info = self.info.get(case["flow"]) or {}
         cyc = [l for l in res.get("locations", []) if l.get("partition") == "err"
                and "Cyclical dataflow within a tick" in l.get("diagnostic", "")]
